@@ -1,5 +1,5 @@
 (* C03 — Locale parsing accepts all well-formed locale ids and never silently drops input. *)
-From UL Require Import Bytes Subtags LangId Ext Grammar LangIdSpec LocaleSpec LangIdProofs ExtProofs LocaleSpecProofs SplitProofs StringLevel LocaleGrammar LocaleGrammarProofs.
+From UL Require Import Bytes Subtags LangId Ext Grammar LangIdSpec LocaleSpec LangIdProofs ExtProofs LocaleSpecProofs SplitProofs StringLevel LocaleGrammar LocaleGrammarProofs LocaleGrammarInv.
 From Coq Require Import String.
 
 (* Ok or Err for every byte string: no panic on unsupported / malformed singletons (D1) *)
@@ -71,6 +71,10 @@ Theorem C03_accepts_every_wellformed : forall toks seps v,
 Proof. exact WFLocale_accepted. Qed.
 Theorem C03_grammar_in_must_accept : forall toks v, WFLocale toks v -> spec_locale_zone toks = MustAccept v.
 Proof. exact WFLocale_must_accept. Qed.
+(* ... and the MustAccept zone contains NOTHING ELSE: C03_complete obliges the parser to accept exactly the
+   well-formed identifiers of the grammar, no more (the oracle cannot demand acceptance of an ill-formed input) *)
+Theorem C03_must_accept_is_the_grammar : forall toks v, spec_locale_zone toks = MustAccept v <-> WFLocale toks v.
+Proof. exact must_accept_iff_WFLocale. Qed.
 (* non-vacuity: an identifier with all three extensions is a member of the relation *)
 Example C03_grammar_witness : exists v,
   WFLocale [bs "eN"; bs "us"; bs "U"; bs "attr"; bs "ca"; bs "buddhist"; bs "t"; bs "de"; bs "h0"; bs "hybrid"; bs "x"; bs "foo"]%string v
@@ -91,6 +95,7 @@ Proof.
 Qed.
 Print Assumptions C03_accepts_every_wellformed.
 Print Assumptions C03_grammar_in_must_accept.
+Print Assumptions C03_must_accept_is_the_grammar.
 
 Print Assumptions C03_sound.
 Print Assumptions C03_complete.
